@@ -31,6 +31,7 @@ import (
 	"io"
 	"os"
 	"sort"
+	"strconv"
 	"strings"
 	"testing"
 	"time"
@@ -110,6 +111,7 @@ type c16Env struct {
 	defects   []c16Defect
 	seenCanon map[[32]byte]bool
 	histCanon map[[32]byte][32]byte
+	pollLabels map[[32]byte]int // parent history -> bit 1: some labelled poll realised, bit 2: some label unrealisable
 	rndCtr    uint64
 	idCtr     uint64
 	rndBuf    []byte
@@ -164,7 +166,7 @@ func c16NewEnv(t *testing.T, r *ev.Run) *c16Env {
 	logrus.SetOutput(io.Discard)
 	logrus.SetLevel(logrus.PanicLevel)
 	e := &c16Env{t: t, r: r, byDID: map[string]*c16Party{}, credCache: map[string]string{},
-		defectCache: map[string]*c16VP{}, defects: c16Defects(), seenCanon: map[[32]byte]bool{}, histCanon: map[[32]byte][32]byte{}, stats: map[string]int64{}}
+		defectCache: map[string]*c16VP{}, defects: c16Defects(), seenCanon: map[[32]byte]bool{}, histCanon: map[[32]byte][32]byte{}, pollLabels: map[[32]byte]int{}, stats: map[string]int64{}}
 	e.base = time.Now().Truncate(time.Second)
 	vtime.Freeze(e.base)
 	for i, n := range []string{"a", "b", "c"} {
@@ -545,11 +547,23 @@ func (e *c16Env) ref(f c16Facts, now int64, listedID func(string) string) (bool,
 type c16Event struct {
 	Op string `json:"op"` // reg regshort retract replay inject expire poll reset resetreg
 	S  int    `json:"s"`
+	// R (poll only) names the resolution of the one nondeterminism the harness cannot seam: updateService ranges over a
+	// Go map, and every add() first prunes expired rows, so when a batch holds an expired entry next to another one
+	// the expired row survives iff it is processed LAST. R = subject letter of the expired entry processed last, or
+	// "live" when an unexpired entry was last; "" when the batch is unambiguous. The replay is repeated until the
+	// real code happens to take the named order (rejection sampling over the runtime's map order), so each labelled
+	// poll is a deterministic transition and ALL resolutions are enumerated as separate events.
+	R string `json:"r,omitempty"`
 }
 
 func (ev c16Event) String() string {
 	switch ev.Op {
-	case "expire", "poll", "reset", "resetreg":
+	case "poll":
+		if ev.R != "" {
+			return "poll[last=" + ev.R + "]"
+		}
+		return ev.Op
+	case "expire", "reset", "resetreg":
 		return ev.Op
 	}
 	return fmt.Sprintf("%s(%c)", ev.Op, 'a'+ev.S)
@@ -628,6 +642,10 @@ type c16World struct {
 	hadReset bool
 	canon    string
 	dirty    bool // a violation polluted the instance: skip the remaining checks of this state
+	retry    bool // a labelled poll took another map order than the label names: replay again
+	unreal   bool // no replay produced the labelled order: the label is not realisable in this state
+	added    []string // raw presentations in the order the client added them during the current poll
+	superBy  map[string]*c16VP // presentation -> the presentation that displaced it on the server
 	rowsOK   bool // cache of the server rows (invalidated by every accepted registration / inject / reset)
 	rowsC    []c16Row
 	seedC    string
@@ -649,7 +667,7 @@ func (e *c16Env) newWorld(cfg c16Config) *c16World {
 	e.rndCtr, e.rndBuf = 0, nil
 	uuid.SetRand(c16Rand{e})
 	w := &c16World{e: e, cfg: cfg, model: map[string]*c16Entry{}, prev: make([]*c16VP, cfg.K), known: map[string]bool{},
-		injected: map[string]bool{}, lastTs: map[string]int{}}
+		injected: map[string]bool{}, lastTs: map[string]int{}, superBy: map[string]*c16VP{}}
 	w.direct = c16Direct{w}
 	var err error
 	w.srv = &Module{vcrInstance: e.vcr, allDefinitions: e.defs, serverDefinitions: e.defs}
@@ -660,7 +678,10 @@ func (e *c16Env) newWorld(cfg c16Config) *c16World {
 	if w.cli.store, err = newSQLStore(e.cliDB, e.defs); err != nil {
 		e.t.Fatal(err)
 	}
-	w.cli.clientUpdater = newClientUpdater(e.defs, w.cli.store, w.cli.verifyRegistration, w.direct)
+	w.cli.clientUpdater = newClientUpdater(e.defs, w.cli.store, func(def ServiceDefinition, vp vc.VerifiablePresentation) error {
+		w.added = append(w.added, vp.Raw()) // updateService verifies right after every add: this is the processing order
+		return w.cli.verifyRegistration(def, vp)
+	}, w.direct)
 	w.cli.registrationManager = newRegistrationManager(e.defs, w.cli.store, w.direct, e.vcr, nil, nil, w.cli.verifyRegistration)
 	return w
 }
@@ -801,11 +822,13 @@ func (w *c16World) submit(vp *c16VP, label string, honest bool) bool {
 	if vp.Facts.Retraction {
 		kind = "retract"
 	}
-	if old := w.model[vp.Facts.Signer]; old != nil && old.Kind == "reg" && old.VP.Raw != vp.Raw {
-		if i := w.subjectIdx(vp.Facts.Signer); i >= 0 && i < w.cfg.K {
+	if old := w.model[vp.Facts.Signer]; old != nil && old.VP.Raw != vp.Raw {
+		w.superBy[old.VP.Raw] = vp
+		if i := w.subjectIdx(vp.Facts.Signer); old.Kind == "reg" && i >= 0 && i < w.cfg.K {
 			w.prev[i] = old.VP
 		}
 	}
+	delete(w.superBy, vp.Raw)
 	w.modelTs++
 	w.model[vp.Facts.Signer] = &c16Entry{Ts: w.modelTs, VP: vp, Kind: kind}
 	return true
@@ -833,6 +856,55 @@ func (w *c16World) reset() {
 	w.model = map[string]*c16Entry{}
 	w.modelTs = 0
 	w.hadReset = true
+}
+
+// pollMenu: the poll events of the current state — one per resolution of the batch's processing order (see c16Event.R).
+func (w *c16World) pollMenu() []c16Event {
+	_, _, cts := c16Rows(w.e.t, w.e.cliDB)
+	batch, _, _, err := w.srv.Get(context.Background(), c16Service, cts)
+	if err != nil {
+		w.e.t.Fatal(err)
+	}
+	now := w.e.now()
+	var expired []string
+	for _, vp := range batch {
+		if f := w.e.facts(vp.Raw()); f.Exp <= now {
+			if i := w.subjectIdx(f.Signer); i >= 0 && i < 26 {
+				expired = append(expired, string(rune('a'+i)))
+			}
+		}
+	}
+	if len(batch) < 2 || len(expired) == 0 {
+		return []c16Event{{Op: "poll"}}
+	}
+	sort.Strings(expired)
+	var evs []c16Event
+	if len(batch) > len(expired) {
+		evs = append(evs, c16Event{Op: "poll", R: "live"})
+	}
+	for _, x := range expired {
+		evs = append(evs, c16Event{Op: "poll", R: x})
+	}
+	return evs
+}
+
+// pollLabelled performs a poll and checks that the real code took the processing order the label names.
+func (w *c16World) pollLabelled(label string) {
+	w.added = nil
+	w.poll()
+	if label == "" || len(w.added) == 0 {
+		return // unambiguous batch, or nothing was added (every label leads to the same state)
+	}
+	obs := "live"
+	if f := w.e.facts(w.added[len(w.added)-1]); f.Exp <= w.e.now() {
+		obs = "?"
+		if i := w.subjectIdx(f.Signer); i >= 0 && i < 26 {
+			obs = string(rune('a' + i))
+		}
+	}
+	if obs != label {
+		w.retry = true
+	}
 }
 
 func (w *c16World) poll() {
@@ -884,7 +956,7 @@ func (w *c16World) apply(ev c16Event) {
 	case "expire":
 		vtime.Advance(c16Advance)
 	case "poll":
-		w.poll()
+		w.pollLabelled(ev.R)
 	case "reset":
 		w.reset()
 	case "resetreg":
@@ -912,8 +984,9 @@ func (w *c16World) inject(vp *c16VP) {
 			delete(w.model, s)
 		}
 	}
-	if old := w.model[vp.Facts.Signer]; old != nil && old.Kind == "reg" {
-		if i := w.subjectIdx(vp.Facts.Signer); i >= 0 && i < w.cfg.K {
+	if old := w.model[vp.Facts.Signer]; old != nil {
+		w.superBy[old.VP.Raw] = vp
+		if i := w.subjectIdx(vp.Facts.Signer); old.Kind == "reg" && i >= 0 && i < w.cfg.K {
 			w.prev[i] = old.VP
 		}
 	}
@@ -957,7 +1030,9 @@ func (w *c16World) enabled() []c16Event {
 			}
 		}
 	}
-	evs = append(evs, c16Event{Op: "expire"}, c16Event{Op: "poll"}, c16Event{Op: "reset"})
+	evs = append(evs, c16Event{Op: "expire"})
+	evs = append(evs, w.pollMenu()...)
+	evs = append(evs, c16Event{Op: "reset"})
 	return evs
 }
 
@@ -1124,7 +1199,14 @@ func (w *c16World) serverLive() (live []string, tsOf map[string]int) {
 
 func (w *c16World) clientSnapshot() string {
 	rows, seed, ts := c16Rows(w.e.t, w.e.cliDB)
-	return ev.Key(rows) + seed + fmt.Sprint(ts)
+	now := w.e.now()
+	var live []c16Row
+	for _, r := range rows {
+		if r.Exp > now { // expired rows are invisible to Search and are pruned by the next add: churn among them is not a change
+			live = append(live, r)
+		}
+	}
+	return ev.Key(live) + seed + fmt.Sprint(ts)
 }
 
 // fairSuffix: polls until a poll changes nothing; then the client's Search must be the server's live set.
@@ -1176,7 +1258,19 @@ func (w *c16World) fairSuffix() {
 	}
 	for _, g := range got {
 		if !wantSet[g] {
-			w.violation("C16|client|converge|extra|"+ctxt,
+			// structural class: was the entry displaced on the server by presentations that have all expired since (and
+			// were pruned, or are no longer handed to a client that is past their timestamp)?
+			class, n := ctxt, 0
+			for sup := w.superBy[g]; sup != nil && n < 16; sup, n = w.superBy[sup.Raw], n+1 {
+				if sup.Facts.Exp > e.now() {
+					n = -1
+					break
+				}
+			}
+			if n > 0 {
+				class = "superseding-presentation-expired-before-client-polled"
+			}
+			w.violation("C16|client|converge|extra|"+class,
 				"after a quiescent sequence of polls the client's Search returns an entry that is not in the server's live set")
 			return
 		}
@@ -1376,9 +1470,32 @@ func c16HistKey(cfg string, hist []c16Event) [32]byte {
 }
 
 func (e *c16Env) build(cfg c16Config, hist []c16Event) *c16World {
-	w := e.newWorld(cfg)
-	for _, h := range hist {
-		w.apply(h) // acceptance / timestamp clauses are judged inside, at every replayed event
+	var w *c16World
+	for attempt := 0; ; attempt++ {
+		w = e.newWorld(cfg)
+		for _, h := range hist {
+			w.apply(h) // acceptance / timestamp clauses are judged inside, at every replayed event
+			if w.retry {
+				break
+			}
+		}
+		if !w.retry {
+			break
+		}
+		e.stats["replays_repeated_for_map_order"]++
+		if attempt >= 40 {
+			// the named processing order never occurred: not realisable here (e.g. the entry is skipped as already held)
+			w.unreal, w.hist = true, append([]c16Event{}, hist...)
+			w.canon = "UNREALISABLE"
+			e.stats["unrealisable_poll_labels"]++
+			if len(hist) > 0 {
+				e.pollLabels[c16HistKey(cfg.Name, hist[:len(hist)-1])] |= 2
+			}
+			return w
+		}
+	}
+	if n := len(hist); n > 0 && hist[n-1].Op == "poll" && hist[n-1].R != "" {
+		e.pollLabels[c16HistKey(cfg.Name, hist[:n-1])] |= 1
 	}
 	if !w.dirty {
 		w.checkServerState() // list-shape clauses: every prefix of a BFS history was itself a BFS state
@@ -1434,7 +1551,7 @@ func TestVerifC16BFS(t *testing.T) {
 		"Module (two SQLite databases, real verifier, virtual clock); a state = canonical form of both databases + replay candidates; " +
 		"in every new state the defective-registration alphabet (25 kinds; quick tier: at the deepest level only the 9 kinds whose handling " +
 		"reads the list or that are tried per subject, plus 3 representatives) is offered to the server (self-loop transitions), the " +
-		"client's Search is judged, and a fair suffix of polls must end with Search == server live set. The BFS prefix to the split depth " +
+		"client's Search is judged (poll events carry the resolution of the client's map-order nondeterminism, all resolutions enumerated), and a fair suffix of polls must end with Search == server live set. The BFS prefix to the split depth " +
 		"is shared; below it the frontier is dealt over the workers, whose seen-sets are private (state counts are per worker).")
 	r.Assume("go-did parsing, jwx, gorm/SQLite are trusted; did:jwk/did:key resolution is exercised, not modelled")
 	r.Assume("the virtual clock replaces every clock read of discovery/{module,store,client}.go and vcr/verifier/{verifier,signature_verifier}.go")
@@ -1506,7 +1623,7 @@ func TestVerifC16BFS(t *testing.T) {
 			},
 			Enabled: func(inst any, hist []c16Event) []c16Event {
 				w := inst.(*c16World)
-				if w.dirty {
+				if w.dirty || w.unreal {
 					return nil
 				}
 				return w.enabled()
@@ -1514,6 +1631,9 @@ func TestVerifC16BFS(t *testing.T) {
 			Canon: func(inst any) string { return inst.(*c16World).canon },
 			Invariant: func(inst any, hist []c16Event) {
 				w := inst.(*c16World)
+				if w.unreal {
+					return
+				}
 				k := sha256.Sum256([]byte(cfg.Name + w.canon))
 				r.Eval(cfg.Name + w.canon)
 				if e.seenCanon[k] {
@@ -1552,6 +1672,11 @@ func TestVerifC16BFS(t *testing.T) {
 			continue
 		}
 		r.AddExtra(k, v)
+	}
+	for _, bits := range e.pollLabels {
+		if bits == 2 {
+			t.Fatal("harness error: an ambiguous poll had no realisable processing-order label at all")
+		}
 	}
 	r.AssumptionCheck("replay-deterministic", true, "every history that was replayed more than once gave one canonical state")
 	r.AddExtra("histories_replayed", int64(len(e.histCanon)))
@@ -1681,6 +1806,10 @@ func TestVerifC16Sched(t *testing.T) {
 	}
 	cfg := c16Config{Name: "sched", K: 3}
 	var steps int64
+	deadline := time.Now().Add(10 * time.Minute)
+	if b, err := strconv.Atoi(os.Getenv("VERIF_BUDGET_S")); err == nil && b > 0 {
+		deadline = time.Now().Add(time.Duration(b) * time.Second)
+	}
 	for si, sc := range scenarios {
 		sc := sc
 		if replay && sc.Name != rc.Scenario {
@@ -1760,12 +1889,12 @@ func TestVerifC16Sched(t *testing.T) {
 				r.Eval(sc.Name + "|" + fmt.Sprint(x.Choices()))
 			}
 		}
-		opts := sched.Options{Bound: -1, SelfCheck: true, MaxSteps: 5000}
+		opts := sched.Options{Bound: -1, SelfCheck: true, MaxSteps: 5000, Deadline: deadline}
 		if sc.Bounded {
-			opts.Bound = 2
-			if r.Thorough() {
+			opts.Bound = 2 // two threads: 2 quick / 3 thorough; three threads: 1 quick / 2 thorough
+			if r.Thorough() && len(sc.Threads) == 2 {
 				opts.Bound = 3
-			} else if len(sc.Threads) > 2 {
+			} else if !r.Thorough() && len(sc.Threads) > 2 {
 				opts.Bound = 1
 			}
 			r.Bound("preemption_bound_"+sc.Name, opts.Bound)
